@@ -380,35 +380,109 @@ func runC10(c *Ctx) {
 
 	// the continuation test compares whole tokens: a raw character-prefix test would take
 	// "... 0 10" for a continuation of "... 0 1" and feed the leftover "0" to Engine.Move
-	r.Rule("R10-prefix", "the test 'this command continues the remembered one' is made at a token boundary: the remembered line is compared as a prefix only together with the separator that must follow it (or for equality)", 1)
+	r.Rule("R10-prefix", "the test 'this command continues the remembered one' is made at a token boundary (the remembered line is compared as a prefix only together with the separator that must follow it, or for equality), and what follows must be a move list (the moves keyword is tested on the lines, not only skipped token by token)", 2)
 	c.guard("R10-prefix", func() {
-		n, bad := 0, ""
+		// the position arm and the driver helpers it calls (the decision may sit in a helper)
+		type blk struct {
+			fn *ssa.Function
+			b  *ssa.BasicBlock
+		}
+		var blocks []blk
+		seenFn := map[*ssa.Function]bool{}
 		for _, b := range d.process.Blocks {
 			if !inArm(b) {
 				continue
 			}
+			blocks = append(blocks, blk{d.process, b})
 			for _, ins := range b.Instrs {
-				call, ok := ins.(*ssa.Call)
-				if !ok || call.Call.StaticCallee() == nil || call.Call.StaticCallee().String() != "strings.HasPrefix" || len(call.Call.Args) != 2 {
-					continue
-				}
-				pfx := call.Call.Args[1]
-				if !strings.Contains(pathExpr(pfx), ".lastPosition") {
-					continue
-				}
-				n++
-				okSep := false
-				if bo, isBin := pfx.(*ssa.BinOp); isBin && bo.Op == token.ADD {
-					if cst, isC := bo.Y.(*ssa.Const); isC && cst.Value != nil && cst.Value.Kind() == constant.String && strings.HasPrefix(constant.StringVal(cst.Value), " ") && strings.HasSuffix(pathExpr(bo.X), ".lastPosition") {
-						okSep = true
+				if call, ok := ins.(ssa.CallInstruction); ok {
+					h := call.Common().StaticCallee()
+					if h != nil && h.Blocks != nil && h.Pkg == d.process.Pkg && h != d.process && !seenFn[h] {
+						seenFn[h] = true
+						for _, hb := range h.Blocks {
+							blocks = append(blocks, blk{h, hb})
+						}
 					}
 				}
-				if !okSep {
-					bad = joinNonEmpty(bad, "strings.HasPrefix(line, "+pathExpr(pfx)+") at "+c.pos(call.Pos())+" is a raw character-prefix test: 'position fen <f> 0 1' followed by 'position fen <f> 0 10' is taken for a continuation, the leftover '0' is played as a move, fails, and the driver stops with the engine still on the first position")
+			}
+		}
+		n, bad := 0, ""
+		keyword := false
+		perToken := func(v ssa.Value) bool {
+			// a value taken from ranging over / indexing the split line
+			seen := map[ssa.Value]bool{}
+			var walk func(v ssa.Value, depth int) bool
+			walk = func(v ssa.Value, depth int) bool {
+				if v == nil || seen[v] || depth > 8 {
+					return false
+				}
+				seen[v] = true
+				switch x := v.(type) {
+				case *ssa.Next, *ssa.Range:
+					return true
+				case *ssa.IndexAddr:
+					return true
+				case *ssa.Index:
+					return true
+				case *ssa.Phi:
+					for _, e := range x.Edges {
+						if walk(e, depth+1) {
+							return true
+						}
+					}
+				case *ssa.UnOp:
+					return walk(x.X, depth+1)
+				case *ssa.Extract:
+					return walk(x.Tuple, depth+1)
+				}
+				return false
+			}
+			return walk(v, 0)
+		}
+		isMovesConst := func(v ssa.Value) bool {
+			cst, ok := v.(*ssa.Const)
+			return ok && cst.Value != nil && cst.Value.Kind() == constant.String && strings.Contains(constant.StringVal(cst.Value), "moves")
+		}
+		for _, bb := range blocks {
+			for _, ins := range bb.b.Instrs {
+				switch x := ins.(type) {
+				case *ssa.BinOp:
+					if (x.Op == token.EQL || x.Op == token.NEQ) && (isMovesConst(x.X) && !perToken(x.Y) || isMovesConst(x.Y) && !perToken(x.X)) {
+						keyword = true
+					}
+				case *ssa.Call:
+					cal := x.Call.StaticCallee()
+					if cal == nil || cal.Pkg == nil || cal.Pkg.Pkg.Path() != "strings" || len(x.Call.Args) != 2 {
+						continue
+					}
+					if isMovesConst(x.Call.Args[1]) && !perToken(x.Call.Args[0]) {
+						switch cal.Name() {
+						case "HasPrefix", "HasSuffix", "Contains", "Index", "EqualFold":
+							keyword = true
+						}
+					}
+					if cal.Name() != "HasPrefix" {
+						continue
+					}
+					pfx := x.Call.Args[1]
+					if !strings.Contains(pathExpr(pfx), ".lastPosition") {
+						continue
+					}
+					n++
+					okSep := false
+					if bo, isBin := pfx.(*ssa.BinOp); isBin && bo.Op == token.ADD {
+						if cst, isC := bo.Y.(*ssa.Const); isC && cst.Value != nil && cst.Value.Kind() == constant.String && strings.HasPrefix(constant.StringVal(cst.Value), " ") && strings.HasSuffix(pathExpr(bo.X), ".lastPosition") {
+							okSep = true
+						}
+					}
+					if !okSep {
+						bad = joinNonEmpty(bad, "strings.HasPrefix(line, "+pathExpr(pfx)+") at "+c.pos(x.Pos())+" is a raw character-prefix test: 'position fen <f> 0 1' followed by 'position fen <f> 0 10' is taken for a continuation, the leftover '0' is played as a move, fails, and the driver stops with the engine still on the first position")
+					}
 				}
 			}
 		}
 		r.Check(bad == "" && n >= 1, "R10-prefix", "continuation test at a token boundary", c.pos(pos.Instrs[0].Pos()), "", bad)
+		r.Check(keyword, "R10-prefix", "a continuation extends the remembered line by moves only", c.pos(pos.Instrs[0].Pos()), "", "the moves keyword is only skipped token by token: after a line without moves (a bare 'position', 'position startpos') anything that follows the remembered text is fed to Engine.Move - 'position' then 'position startpos moves e2e4' plays 'startpos' as a move, fails, and the engine is left on the start position while the command describes the game after e2e4")
 	})
 	c10Engine(c)
 	// the moves of the command are played as written: Engine.Move pushes the generated move that
